@@ -1,5 +1,5 @@
 import CppUModel.Base.Proto
-import CppUModel.Model.LeakPlugin
+import CppUModel.Model.LeakPluginChain
 /-!
 Driver for C07: replays the harness trace through the plugin/detector/runner model and judges
 the implementation's observations with the property's specification oracle.  The oracle works
@@ -19,7 +19,26 @@ structure DState where
   first    : FirstPlugin := (Proc.init true).first   -- who firstPlugin_ points to
   separate : Bool := false              -- the running test runs in a forked child
   parent   : World := World.init true   -- separate: the parent's state while the child runs
+  chain    : List (Nat × Bool) := [(0, true)]   -- the plugin chain, head first: 0 = the leak plugin, k = scripted plugin k; enabled
+  fPre     : Nat := 0                   -- failure count at the leak plugin's pre action
+  forked   : Bool := false              -- the first pre action of this test has begun (separate: the child exists)
+  ran      : Nat := 0                   -- tests run so far
 deriving Inhabited
+
+/-- `plugins <installation order>`: every plugin is installed with the regenerated `installPlugin` -/
+def chainOf (toks : List String) : List (Nat × Bool) :=
+  let ids := toks.filterMap fun t => if t == "L" then some 0 else t.toNat?
+  let ids := if ids.contains 0 then ids else ids ++ [0]
+  ids.foldl (fun c k => installPlugin c (k, true)) []
+
+def actLabel (which : String) (k : Nat) : String := if k == 0 then "L" else s!"{which}{k}"
+
+/-- the order in which the model's chain walk performs the pre / post actions of the enabled plugins -/
+def orderLine (chain : List (Nat × Bool)) : String :=
+  let pre := (preOrderOf (fun p : Nat × Bool => p.2) chain).map (fun p => actLabel "p" p.1)
+  let post := (postOrderOf (fun p : Nat × Bool => p.2) chain).map (fun p => actLabel "q" p.1)
+  " ".intercalate (["order"] ++ pre ++ ["/"] ++ post)
+
 
 def phaseOf? : String → Option Phase
   | "s" => some .setup | "b" => some .body | "t" => some .teardown | _ => none
@@ -98,17 +117,42 @@ def renderReport (what : String) (r : LeakReport) (trunc : Bool) (emptyKind : St
 def preSteps' : List RStep := Gen.LeakCode.runOneTestOrder.takeWhile (· != .runTest)
 def postSteps' : List RStep := (Gen.LeakCode.runOneTestOrder.dropWhile (· != .runTest)).drop 1
 
-def modelStep (d : DState) (op : List String) (obs : List (List String)) : DState × List String :=
+def plugPhase? (p : String) : Option Nat :=
+  match p.toList with
+  | [c, d] => if (c == 'p' || c == 'q') && d.isDigit then some (d.toNat - '0'.toNat) else none
+  | _ => none
+
+/-- does this operation belong to the pre actions (or later) of the running test -/
+def afterFork : List String → Bool
+  | ["pre"] => true
+  | "cmd" :: p :: _ => (plugPhase? p).isSome || p == "c" || p == "s" || p == "b" || p == "t" || p == "d"
+  | _ => false
+
+/-- `disable k` / `enable k`: the plugin is found by name in the chain (skipped when it is not installed) -/
+def setAble (d : DState) (k : String) (b : Bool) : DState × List String :=
+  match k.toNat? with
+  | some k =>
+    if k != 0 && d.chain.any (fun p => p.1 == k) then
+      ({ d with chain := d.chain.map (fun p => if p.1 == k then (k, b) else p) }, ["ok"])
+    else (d, ["skipped"])
+  | none => (d, ["bad-op"])
+
+def modelStep (d0 : DState) (op : List String) (obs : List (List String)) : DState × List String :=
+  let d := if afterFork op && !d0.forked then { d0 with parent := d0.w, forked := true } else d0
   match op with
   | "mode" :: m :: rest =>
-    ({ w := World.init (!(rest.contains "nooverloads")), global := m == "global",
+    ({ w := World.init (!(rest.contains "nooverloads")), global := m == "global" || m == "runner",
        first := (Proc.init true).first }, [])
+  | "plugins" :: toks => ({ d with chain := chainOf toks }, [])
   | ["test", _] =>
     if obs.contains ["notrun"] then (d, ["notrun"])
-    else ({ d with w := clearObs d.w, phase := none, inTest := false, f0 := d.w.failures, separate := false }, [])
+    else ({ d with w := clearObs d.w, phase := none, inTest := false, f0 := d.w.failures, separate := false, forked := false,
+                     ran := d.ran + 1 }, [])
   | ["pre"] =>
     -- a test in a separate process: everything from here to `post` happens to the child's copy
-    ({ d with parent := d.w, w := preSteps'.foldl (rstep {}) d.w, inTest := true, phase := none }, [])
+    -- (the actions of the plugins in front of the leak plugin have been replayed already: they too are the child's)
+    ({ d with w := preSteps'.foldl (rstep {}) d.w, inTest := true, phase := none, fPre := d.w.failures },
+     if d.w.failures > d.f0 then [s!"prefail {d.w.failures - d.f0}"] else [])
   | ["cmd", "o", "overloads", b] =>
     if obs.contains ["ok"] then
       ({ d with w := if b == "on" then turnOnOverloads d.w else turnOffOverloads d.w }, ["ok"])
@@ -123,6 +167,8 @@ def modelStep (d : DState) (op : List String) (obs : List (List String)) : DStat
     else (d, ["skipped"])
   | ["cmd", "o", "separate"] =>
     if obs.contains ["ok"] then ({ d with separate := true }, ["ok"]) else (d, ["skipped"])
+  | ["cmd", "o", "disable", k] => setAble d k false
+  | ["cmd", "o", "enable", k] => setAble d k true
   | "cmd" :: "o" :: rest =>
     match cmdOf? rest with
     | some (.alloc id sz) => execAndRender d execOutside (.alloc id sz) obs
@@ -140,6 +186,13 @@ def modelStep (d : DState) (op : List String) (obs : List (List String)) : DStat
     | some c => execAndRender d execMem c obs
     | none => (d, ["bad-op"])
   | "cmd" :: p :: rest =>
+    if (plugPhase? p).isSome then
+      -- a command of another plugin's pre / post action
+      match cmdOf? rest with
+      | some (.expectLeaks _) | some .ignoreLeaks => (d, ["skipped"])
+      | some c => execAndRender d execAct c obs
+      | none => (d, ["bad-op"])
+    else
     match phaseOf? p, cmdOf? rest with
     | some ph, some c =>
       let w := if d.phase == some ph then d.w else enterUpTo d.w d.phase ph
@@ -150,20 +203,37 @@ def modelStep (d : DState) (op : List String) (obs : List (List String)) : DStat
   | ["post"] =>
     let w0 := (phasesAfter d.phase).foldl enterPhase d.w
     let w := postSteps'.foldl (rstep {}) w0
-    -- the parent of a separate process only learns whether the child's failure count grew
-    let wAfter := if d.separate then joinSeparate d.parent w else w
-    let out := [s!"failures {w.failures - d.f0}"] ++
+    let out := [s!"failures {w.failures - d.fPre}"] ++
       (match w.leakFail with
        | some r => renderReport "leakfail" r (obsTrunc "leakfail" obs) "noleaks"
        | none => []) ++
       (if w.warned then [s!"warn {w0.plg.expected}"] else []) ++
+      [s!"fc {w.failures}"]
+    ({ d with w := w, inTest := false }, out)
+  | ["done"] =>
+    -- the parent of a separate process only learns whether the child's failure count grew
+    let wAfter := if d.separate then joinSeparate d.parent d.w else d.w
+    let out := [orderLine d.chain] ++
       (if d.separate then [s!"parentfail {wAfter.failures - d.parent.failures}"] else []) ++
       [s!"fc {wAfter.failures}"]
     ({ d with w := wAfter, inTest := false }, out)
   | ["final", n] =>
     match finalReportN d.w (n.toNat?.getD 0) with
-    | some r => (d, renderReport "final" r (obsTrunc "final" obs) "noleaks")
+    | some r =>
+      -- the output buffer is cleared by `startChecking` only: a final report asked for after a leak failure, with no
+      -- pre action in between, is appended to that report's text; when it finds no leak itself the last
+      -- "Total number of leaks" line of the text is still the earlier report's
+      let r' := if r.total == 0 && !d.w.det.out.isEmpty then { r with total := d.w.det.out.length } else r
+      (d, renderReport "final" r' (obsTrunc "final" obs) "noleaks")
     | none => (d, ["final empty total -1 trunc 0"])
+  | ["runnerend"] =>
+    -- `CommandLineTestRunner::RunAllTests` after the run: result, and the final report if it is asked for
+    -- (a run in which no test ran counts as failed: `TestResult::isFailure`, property C01)
+    let res := s!"result {if d.w.failures == 0 && d.ran > 0 then 0 else 1}"
+    match (if d.ran == 0 then none else runnerFinal d.w) with
+    | none => (d, [res, "final skipped"])
+    | some none => (d, [res, "final empty total -1 trunc 0"])
+    | some (some r) => (d, res :: renderReport "final" r (obsTrunc "final" obs) "noleaks")
   | ["destroy"] =>
     let w := destroyGlobalDetector d.w
     ({ d with w := w }, [s!"destroyed overloads {if w.overloads then 1 else 0} leaks {w.det.recs.length} nextnum {w.det.seq}"])
@@ -188,17 +258,35 @@ structure Shadow where
   testNo    : Nat := 0
   separate  : Bool := false       -- this test runs in a forked child
   liveAtPre : List Blk := []      -- separate: the parent's outstanding blocks
+  prefail   : Nat := 0            -- failures added before the leak plugin's pre action (by a plugin in front of it)
+  seenPre   : Bool := false
+  childFailed : Bool := false     -- a failure was recorded for this test
+  forked    : Bool := false       -- the first pre action of this test has begun
+  posted    : Bool := false       -- the leak plugin's post action has been observed
 
 def natOf (s : String) : Except String Nat :=
   match s.toNat? with | some n => pure n | none => throw s!"not a number: {s}"
 
-def specStep (sh : Shadow) (o : Proto.Op) : Except String Shadow := do
+def inTestObject : List String → Bool
+  | "cmd" :: p :: _ => p == "c" || p == "s" || p == "b" || p == "t" || p == "d"
+  | _ => false
+
+def specStep (sh0 : Shadow) (o : Proto.Op) : Except String Shadow := do
+  let sh := if afterFork o.op && !sh0.forked then { sh0 with liveAtPre := sh0.live, forked := true } else sh0
+  -- "between its start (before setup) and its end (after teardown)": whatever the plugin chain did, the window
+  -- is open from the constructor of the test object on
+  let sh := if inTestObject o.op && !sh.inWindow && !sh.posted then { sh with inWindow := true, mine := [] } else sh
   match o.op with
   | "mode" :: _ :: rest => return { sh with overloads := !(rest.contains "nooverloads") }
   | ["test", _] =>
     return { sh with mine := [], inWindow := false, own := 0, ignore := false, expected := 0, testNo := sh.testNo + 1,
-                     separate := false }
-  | ["pre"] => return { sh with inWindow := true, mine := [], liveAtPre := sh.live }
+                     separate := false, prefail := 0, seenPre := false, childFailed := false, forked := false, posted := false }
+  | "plugins" :: _ => return sh
+  | ["pre"] =>
+    if sh.inWindow then throw s!"test #{sh.testNo}: the leak plugin's pre action came after the test object was created"
+    return { sh with inWindow := true, mine := [], seenPre := true }
+  | ["cmd", "o", "disable", _] => return sh
+  | ["cmd", "o", "enable", _] => return sh
   | ["cmd", "o", "overloads", b] =>
     if o.obs.contains ["ok"] then return { sh with overloads := b == "on" } else return sh
   | ["cmd", "o", "separate"] =>
@@ -237,7 +325,13 @@ def specStep (sh : Shadow) (o : Proto.Op) : Except String Shadow := do
   | "cmd" :: p :: "ignore" :: _ =>
     if o.obs.contains ["ok"] && p != "o" then return { sh with ignore := true } else return sh
   | "cmd" :: p :: "fail" :: _ =>
-    if o.obs.contains ["ok"] && p != "o" then return { sh with own := sh.own + 1 } else return sh
+    -- a failing check of the test, or a failure another plugin added: inside the window it is a failure of this
+    -- test; one recorded before the leak plugin's pre action is outside what the property speaks about
+    if o.obs.contains ["ok"] && p != "o" then
+      if sh.inWindow then return { sh with own := sh.own + 1 }
+      else if !sh.seenPre then return { sh with prefail := sh.prefail + 1 }
+      else return { sh with childFailed := true }
+    else return sh
   | ["post"] =>
     let t := sh.testNo
     let failures ← match o.obs.findSome? (fun l => match l with | ["failures", k] => k.toNat? | _ => none) with
@@ -250,6 +344,10 @@ def specStep (sh : Shadow) (o : Proto.Op) : Except String Shadow := do
     -- (1) the verdict: exactly when the test passed its own checks, did not ask to ignore leaks,
     --     and its outstanding blocks differ in number from what it declared
     let should := sh.overloads && sh.own == 0 && !sh.ignore && n != sh.expected
+    if sh.prefail > 0 then
+      -- a plugin in front of the leak plugin recorded a failure before the window opened: the property does not
+      -- say whether such a test "already failed"; nothing is demanded of its verdict
+      return { sh with inWindow := false, childFailed := true, posted := true }
     match leakLine with
     | none =>
       if should then
@@ -281,17 +379,26 @@ def specStep (sh : Shadow) (o : Proto.Op) : Except String Shadow := do
             if !entries.contains e then throw s!"test #{t}: outstanding block alloc num {e.1} size {e.2} missing from the report"
           if entries.length != n then throw s!"test #{t}: report lists {entries.length} entries for {n} outstanding blocks"
     | some _ => throw s!"test #{t}: more than one failure added outside the test's phases"
+    return { sh with inWindow := false, childFailed := sh.childFailed || sh.own > 0 || should, posted := true }
+  | ["done"] =>
+    let t := sh.testNo
+    if !sh.posted && sh.prefail == 0 then
+      -- the leak plugin is installed but no verdict was given for this test
+      let n := sh.mine.length
+      if sh.overloads && sh.own == 0 && !sh.ignore && n != sh.expected then
+        throw s!"test #{t}: {n} block(s) of this test outstanding, {sh.expected} expected, own checks passed, leaks not ignored: no leak failure reported (the leak plugin gave no verdict for this test)"
     if sh.separate then
       -- leaks are detected in the child; the parent reports the test failed exactly when the child
       -- recorded a failure, and nothing the child allocated or released exists in the parent
       let pf ← match o.obs.findSome? (fun l => match l with | ["parentfail", k] => k.toNat? | _ => none) with
         | some k => pure k | none => throw s!"test #{t}: separate process, but no verdict of the parent observed"
-      let childFailed := sh.own > 0 || should
+      let childFailed := sh.childFailed || (!sh.posted && (sh.own > 0 || sh.prefail > 0))
       if pf != (if childFailed then 1 else 0) then
         throw s!"test #{t} (separate process): child failed = {childFailed}, parent recorded {pf} failure(s)"
-      return { sh with inWindow := false, live := sh.liveAtPre }
-    return { sh with inWindow := false }
+      return { sh with live := sh.liveAtPre }
+    return sh
   | ["final", _] => return sh
+  | ["runnerend"] => return sh
   | ["destroy"] => return sh
   | _ => throw "bad-op"
 
